@@ -15,12 +15,18 @@ Inductive gev :=
 | GDoneLabel      (* done: *)
 | GReturn         (* return; *)
 | GErrorLabel     (* error: *)
-| GGotoDone.      (* goto done; *)
+| GGotoDone       (* goto done; *)
+| GCall           (* a call-out during which arbitrary Python code may run — PyObject_Call(py_ob, ...), the onerror
+                     handler, sys.unraisablehook, __int__/__float__ of the result, finalizers run by a Py_DECREF of
+                     another object — and so may drop the callback's last reference (its cdataowninggc_dealloc
+                     does Py_XDECREF(closure->user_data)) *)
+| GUse.           (* a read of the info tuple or through a pointer borrowed from it: PyTuple_GET_ITEM(cb_args, i),
+                     SIGNATURE(i), ct->..., py_ob, py_rawerr, onerror_cb *)
 
 Definition gev_eqb (a b : gev) : bool :=
   match a, b with
   | GInc, GInc | GDec, GDec | GFail, GFail | GDoneLabel, GDoneLabel | GReturn, GReturn
-  | GErrorLabel, GErrorLabel | GGotoDone, GGotoDone => true
+  | GErrorLabel, GErrorLabel | GGotoDone, GGotoDone | GCall, GCall | GUse, GUse => true
   | _, _ => false
   end.
 
@@ -61,3 +67,23 @@ Definition balanced (p : list gev) : bool := (delta p =? 0) && (0 <=? snd (walk 
 (* every path leaves the count as it found it and never goes below it *)
 Definition all_paths_balanced (ev : list gev) : bool :=
   forallb (fun k => balanced (path ev k)) (seq 0 (S (nfails ev))).
+
+(* ---------- the tuple is HELD at every use.
+   [own] = references general_invoke_callback itself holds at this point (its INCREFs minus its DECREFs);
+   [dropped] = a call-out has happened, so the owner's reference (closure->user_data) may be gone.
+   Before the first call-out the caller's reference is still there; from the first call-out on, every read
+   of the tuple (or through a pointer borrowed from it), every further call-out and every INCREF/DECREF
+   needs own >= 1; a call-out itself needs own >= 1 (py_ob, borrowed from the tuple, is running);
+   at the end the function holds nothing. *)
+Fixpoint safe (p : list gev) (own : Z) (dropped : bool) : bool :=
+  match p with
+  | [] => own =? 0
+  | GInc :: t => (negb dropped || (1 <=? own)) && safe t (own + 1) dropped
+  | GDec :: t => (1 <=? own) && safe t (own - 1) dropped
+  | GCall :: t => (1 <=? own) && safe t own true
+  | GUse :: t => (negb dropped || (1 <=? own)) && safe t own dropped
+  | _ :: t => safe t own dropped
+  end.
+
+Definition held_at_uses (ev : list gev) : bool :=
+  forallb (fun k => safe (path ev k) 0 false) (seq 0 (S (nfails ev))).
